@@ -249,7 +249,13 @@ func (x *Exec) valueInstr(st *State, b *ssa.BasicBlock, i int, ins ssa.Value, k 
 	case *ssa.Range, *ssa.Next:
 		x.unsupp(st, "range over map/string in %s", funcKey(b.Parent()))
 		return mkU("nil"), false
-	case *ssa.SliceToArrayPointer, *ssa.MultiConvert:
+	case *ssa.MultiConvert:
+		// conversion of a type-parameter-typed value (float64(value) with T numeric): an uninterpreted function of the operand
+		v := x.val(st, ins.X)
+		to := sortOf(ins.Type())
+		t := x.D.app("conv!"+typeShort(ins.X.Type())+"!"+typeShort(ins.Type()), []string{x.termOf(st, v)}, []string{x.sortOfVal(v)}, to)
+		return x.unbox(st, t, ins.Type()), false
+	case *ssa.SliceToArrayPointer:
 		x.unsupp(st, "unsupported conversion %T", ins)
 		return mkU("nil"), false
 	}
